@@ -1,0 +1,11 @@
+// +build verif
+
+package balance
+
+import "time"
+
+// VerifSetNow overrides the clock used for billing. It only exists in builds
+// with the "verif" tag, for the runtime-verification harness.
+func (b *payPerInterval) VerifSetNow(now func() time.Time) {
+	b.now = now
+}
